@@ -251,6 +251,9 @@ def width(ty):
 
 # ---------------------------------------------------------------------------------- matcher
 
+from .sym import split_phis as sym_split_phis, find_phi as sym_find_phi  # noqa: E402
+
+
 class Matcher:
     """Walk the writer's and the reader's event lists in lockstep."""
 
@@ -316,6 +319,18 @@ class Matcher:
                         raise
                     self.failures.append((tuple(conds + [("W", cond)]), str(ex_), ex_.loc))
             return outs
+        if dec and dec[0][0] == "P":
+            # a look at the next item without consuming it: described from what the writer emits next (nothing left =
+            # the caller's closing tag)
+            binder = getattr(self, "peek_binder", None)
+            if binder is None:
+                raise Mismatch("the reader peeks at the next item; this matcher has no model for that", dec[0][2])
+            head = enc[0] if enc else None
+            if head is not None and head[0] == "rep":
+                raise Mismatch("the reader peeks where the writer loops", dec[0][2])
+            s2 = dict(subst)
+            s2[dec[0][1]] = binder(head)
+            return self._m(enc, dec[1:], s2, sinks, conds)
         if dec and dec[0][0] == "alt":
             branches = dec[0][1]
             ok = []
@@ -374,6 +389,17 @@ class Matcher:
             s2 = dict(subst)
             s2[d[2]] = C("")
             return self._m(enc, dec[1:], s2, sinks, conds)
+        if e[0] == "W" and getattr(self, "split_written_phis", False) and sym_find_phi(e[2]) is not None:
+            # the written value was chosen by an earlier, event-free decision of the writer (`let s = match x {..}`):
+            # follow each choice as a path of its own, so that the reader's decisions can be read against it
+            outs = []
+            for cs, tt in sym_split_phis(e[2], ()):
+                cs2 = [c_ for c_ in cs if c_ is not True]
+                if any(decide(self.N.norm(c_, subst, assumptions(conds)), assumptions(conds)) is False for c_ in cs2):
+                    continue
+                e2 = (e[0], e[1], tt) + tuple(e[3:])
+                outs += self._m([e2] + enc[1:], dec, subst, sinks, conds + [("W", c_) for c_ in cs2])
+            return outs
         if e[0] == "W" and d[0] == "R":
             if not self.prim_compat(e[1], d[1]):
                 raise Mismatch(f"wire primitive mismatch: writer emits {e[1]} ({term_str(e[2], 4)}), reader consumes {d[1]}", d[3])
@@ -489,7 +515,7 @@ def decide(c, assume=()):
         return None
     if c[0] == "is":
         t = c[1]
-        if t[0] == "var":
+        if t[0] in ("var", "varn"):
             return t[1] == c[2]
         return None
     if c[0] == "and":
@@ -556,6 +582,10 @@ class Identity:
             for a_ in self.assume:
                 if isinstance(a_, tuple) and a_[0] == "is" and a_[1] == base and a_[2] != t[1]:
                     return [(path or "(value)", f"comes back as {core.short(t[1])} although it was written as {core.short(a_[2])}")]
+            if getattr(self, "strict_variants", False) and ("is", base, t[1]) not in self.assume:
+                others = [a_ for a_ in self.assume if isinstance(a_, tuple) and a_[0] == "not" and isinstance(a_[1], tuple) and a_[1][0] == "is" and a_[1][1] == base]
+                if not others:
+                    return [(path or "(value)", f"comes back as {core.short(t[1])} on a path that does not establish which variant was written")]
             errs = []
             for i, a in enumerate(t[2]):
                 errs += self.check(a, payload(base, t[1], i), path + "→" + t[1].rsplit("::", 1)[-1])
